@@ -190,7 +190,9 @@ def finish(pid, prop, tier, seed, repo, results, canaries, wall):
         errs = [e for r in rs for e in r.get('errors', [])]
         can_report.append(dict(mutation=can['name'], detected=bool(found), replay_input=(found[0]['inputs'] if found else None),
                                failed=(found[0]['failed'] if found else None), errors=errs[:2]))
-        if not found:
+        if not found and errs and all('canary anchor not found' in e for e in errs):
+            can_report[-1]['skipped'] = 'anchor text not present in the current source (the mutated line was edited): canary not applicable'
+        elif not found:
             can_missed.append(can['name'])
     # replay files
     os.makedirs(os.path.join(VERIF, 'replays'), exist_ok=True)
